@@ -2,7 +2,7 @@
 # Build libhtp (from the CURRENT working tree of $VERIF_REPO, default /repo) plus the
 # verification harness in one of the flavours described in DESIGN.md §4.1.
 #
-#   mc/build.sh <flavour>       flavour ∈ plain | asan | cost | tsan | shared
+#   mc/build.sh <flavour>       flavour ∈ plain | asan | cost | tsan | shared | cov
 #
 # Output: $VERIF_BUILD/<flavour>/libhtp_v.a (or libhtp_v.so for "shared"), hx.o, and every
 # engine binary listed in ENGINES.  The library objects are keyed by a content hash of the
@@ -23,6 +23,7 @@ case $FLAV in
   asan)   CC=clang; CFL="-O1 -g -fsanitize=address,undefined -fno-sanitize-recover=undefined -fno-omit-frame-pointer -fno-optimize-sibling-calls";;
   cost)   CC=clang; CFL="-O1 -g -fsanitize-coverage=trace-pc-guard -fno-builtin";;
   tsan)   CC=clang; CFL="-O1 -g -fsanitize=thread";;
+  cov)    CC=gcc;   CFL="-O0 -g --coverage";;            # line coverage of libhtp under the engines (bin/vcov), not used by any check
   *) echo "unknown flavour $FLAV" >&2; exit 2;;
 esac
 
@@ -92,7 +93,9 @@ if [ "$(cat "$OUT/.hxkey" 2>/dev/null || true)" != "$HKEY" ]; then
   HCFL=$CFL
   # the work meter must not meter the harness itself
   [ "$FLAV" = cost ] && HCFL="-O1 -g"
+  [ "$FLAV" = cov ] && HCFL="-O1 -g"
   LIBS="-lz -llzma -ldl -lpthread -rdynamic"
+  [ "$FLAV" = cov ] && LIBS="$LIBS --coverage"
   [ "$FLAV" = cost ] && WRAP="$WRAP,--wrap=memcpy,--wrap=memmove,--wrap=memchr,--wrap=memcmp,--wrap=memset"
   COMMON=""
   for c in hx gen ref corpus; do
